@@ -16,12 +16,12 @@ func init() {
 		Floor: 6, MustExist: true, Run: runR151,
 	})
 	register(&Rule{
-		ID: "R15.2", Props: []string{"C15", "C11"}, Engine: "order (path automaton) + exhaustiveness",
+		ID: "R15.2", Props: []string{"C15", "C11", "C16"}, Engine: "order (path automaton) + exhaustiveness",
 		Text:  "the background task is always awaited: every method of the Buffer interface implemented by casBufferWithBackgroundTask either does not touch the wrapped buffer, or receives from the task's completion channel on every path after using it (also when the data operation failed), or returns a value built by one of the decorate* helpers, or hands the receiver itself on as the base of a new decorator; and in every function of the package the task's error is read only after a receive from the completion channel on that path (or after the reader was closed, which waits)",
 		Floor: 14, MustExist: true, Run: runR152,
 	})
 	register(&Rule{
-		ID: "R15.3", Props: []string{"C15", "C09", "C10"}, Engine: "lockstate (guarded-by) + guard (monotone flag)",
+		ID: "R15.3", Props: []string{"C15", "C09", "C10", "C08"}, Engine: "lockstate (guarded-by) + guard (monotone flag)",
 		Text:  "multiplexer state is guarded: casClonedBuffer.{consumersRemaining, consumersWaiting, needsValidation, maximumChunkSizeBytes} and multiplexedChunkReader.{pendingConsumers, waitingConsumers, r} are accessed only under the respective mutex, which is released on every exit and not held while blocking on a hand-off channel; the needs-validation flag of a clone group is only ever raised (a consumer that wants validation is never overridden by a later one that does not); unvalidated access to a clone is requested only from Discard and the toUnvalidated* methods",
 		Floor: 12, MustExist: true, Run: runR153,
 	})
